@@ -72,7 +72,7 @@ static mut ERRNO: c_int = 0;
 pub static mut SNAPSHOT_PAYLOAD: bool = false;
 /// the first bytes of each attempt's payload (where the ipc layer writes attachment indices)
 pub static mut PAYS: [[u8; PAY]; MAXA] = [[0; PAY]; MAXA];
-static mut SHMBUF: [[u8; 16]; 4] = [[0; 16]; 4];
+static mut SHMBUF: [[u8; 16]; 10] = [[0; 16]; 10];
 
 
 #[no_mangle]
@@ -207,7 +207,7 @@ pub unsafe extern "C" fn ftruncate(_fd: c_int, len: off_t) -> c_int {
 // mappings of one object — the recording kernel is not used to read regions back)
 #[no_mangle]
 pub unsafe extern "C" fn mmap(_a: *mut c_void, len: size_t, _p: c_int, _f: c_int, _fd: c_int, _o: off_t) -> *mut c_void {
-    kani::assume(R.nshm < 4 && len <= 16);
+    kani::assume(R.nshm < 10 && len <= 16);
     let p = SHMBUF[R.nshm].as_mut_ptr();
     R.nshm += 1;
     R.nmapped += 1;
